@@ -64,7 +64,9 @@ ASSUMPTIONS = [
 ]
 BOUNDS = {
     "quick": "thetas<=3, omega in {d1,d2,b2,b2+d1,d1+SAME}, sigma in {d1,b2}, fixed-unit subsets of size<=1 "
-             "(all subsets for <=3 units), 2 value rotations; table level: grids of 4 cells over the 6-value alphabet",
+             "(all subsets for <=3 units; both namings without fixed units, alternating otherwise), 2 value rotations, "
+             "JSON round trip on every 2nd variant of basic-named configurations; table level: grids of 3-4 cells "
+             "over the 6-value alphabet",
     "thorough": "thetas<=6, same structures, every fixed-unit subset of size<=2 (size<=1 for 5-6 thetas, all subsets "
                 "for <=4 units), both namings, 6 value rotations; table level: grids of 6 cells over the alphabet",
 }
@@ -417,6 +419,12 @@ def phi_case(desc):
         if desc["zero"][k]:
             inds.append((k + 1, idv, [0.0] * neta, [0.0] * ntri, 0.0))
             continue
+        if desc.get("onehot") is not None and k == 0:
+            # an individual with exactly one non-zero field is not an "all zero" individual
+            cellsv = [0.0] * (neta + ntri + 1)
+            cellsv[desc["onehot"]] = 0.1 if desc["onehot"] < neta + ntri else OBJS[2]
+            inds.append((k + 1, idv, cellsv[:neta], cellsv[neta:neta + ntri], cellsv[-1]))
+            continue
         eta = []
         for _ in range(neta):
             eta.append(ALPHA[c[pos % len(c)]])
@@ -502,6 +510,10 @@ def phi_descs(tier):
                             out.append({"neta": neta, "nind": nind, "zero": list(zero), "prefix": prefix, "ids": ids,
                                         "stress": stress, "objname": "SAEMOBJ" if prefix == "PHI" else "OBJ",
                                         "cells": [1, 2, 5, 3, 4, 2] if stress else [1, 2, 5, 3, 4]})
+    for neta in (1, 2, 3):
+        for hot in range(neta + neta * (neta + 1) // 2 + 1):
+            out.append({"neta": neta, "nind": 2, "zero": [False, False], "prefix": "ETA", "ids": [1, 2], "stress": False,
+                        "onehot": hot})
     k = 5 if tier == "thorough" else 3
     for cells in itertools.product(range(len(ALPHA)), repeat=k):
         if all(ALPHA[c] == 0 for c in cells):
@@ -1495,7 +1507,8 @@ def run_shard(shard, tier):
                         except Exception:
                             models[text] = None
                     model = models[text]
-                do_json = tier == "thorough" or not cd["named"] or ri == 0
+                # quick: the JSON round trip on every second output variant of the basic-named configurations
+                do_json = tier == "thorough" or ri == 0 or (not cd["named"] and ri % 2 == 0)
                 fails, ncmp, accepted = run_dir_case(cd, run, tmp, model, do_json)
                 res["transitions"] += 1
                 _count(res, fails, ncmp, accepted)
